@@ -55,6 +55,8 @@ Inside == PolyInside(r, z) /\ RLeq(PsiN, R(1))
 Profile == RAdd(R(3), RMul(R(2), PsiN))
 Outside == <<-7, 1>>
 Map2D == IF Inside THEN Profile ELSE Outside
+\* toroidal field times r: the current flux function F(psi_n) = 6 + 3 psi_n inside the LCFS, the vacuum value 2 x 4 outside
+BtR == IF Inside THEN RAdd(R(6), RMul(R(3), PsiN)) ELSE R(8)
 
 \* gradient of psi and the un-normalised in-plane directions (x r): B_r = -psi_z / r, B_z = psi_r / r
 PsiR == Sgn * (2 * A * (r - R0) + C * (z - Z0))
@@ -78,6 +80,6 @@ UpDownSymmetric == (Z0 = 0 /\ C = 0) => Psi(r, z) = Psi(r, -z)
 PositiveDefinite == 4 * A * B > C * C
 
 EmitCase == PrintT(ToJson([stretch |-> stretch, rnodes |-> RNodes(stretch), grad_exact |-> GradExact(stretch, r), Z0 |-> Z0, C |-> C, off |-> off, neg |-> neg, inside_limiter |-> LimInside(r, z), A |-> A, B |-> B, r |-> r, z |-> z, angle |-> Angles[ang], psin |-> PsiN, inside |-> Inside,
-                           map2d |-> Map2D, psi_axis |-> PsiAxis, psi_lcfs |-> PsiLcfs, grad |-> <<PsiR, PsiZ>>,
+                           map2d |-> Map2D, bt_r |-> BtR, psi_axis |-> PsiAxis, psi_lcfs |-> PsiLcfs, grad |-> <<PsiR, PsiZ>>,
                            pol |-> PolDir, nrm |-> NrmDir, degenerate |-> Degenerate]))
 =============================================================================
